@@ -776,6 +776,70 @@ struct Staged {
     ext: Value,
     resp: Value,
     rows: Value,
+    drain: Value,
+}
+
+const DRAIN_CAP: usize = 200_000;
+
+/// A consumer that goes on after a row failed to decode: the iterator still ends, after at most as many items (rows or
+/// errors) as the frame announced rows. Counted up to DRAIN_CAP items ("capped" = undecided: more were announced than that).
+fn drain_stage(rows: &DeserializedMetadataAndRawRows, first_panic: &mut Option<String>) -> Value {
+    let announced = rows.rows_count();
+    if announced > DRAIN_CAP {
+        return json!({"capped":1,"items":0,"announced":0,"ended":1,"vec_over":0});
+    }
+    let r = guard(first_panic, || -> Option<(usize, bool)> {
+        let it = rows.rows_iter::<Row>().ok()?;
+        let mut n = 0usize;
+        for _ in it {
+            n += 1;
+            if n > announced + 8 {
+                return Some((n, false));
+            }
+        }
+        Some((n, true))
+    });
+    let vec_over = vector_probe(rows, first_panic);
+    match r {
+        Ok(Some((n, ended))) => json!({"capped":0,"items":n,"announced":announced,"ended":ended as u8,"vec_over":vec_over}),
+        _ => json!({"capped":1,"items":0,"announced":0,"ended":1,"vec_over":vec_over}),
+    }
+}
+
+/// A single vector column read through the driver's own `VectorIterator` by a consumer that skips: after `nth(k)` for every
+/// k up to one past the dimension, the iterator holds no more items than the dimension allows and `len()` says how many.
+/// Returns the number of probes for which that is not so (0 when the frame is not a single vector column).
+fn vector_probe(rows: &DeserializedMetadataAndRawRows, first_panic: &mut Option<String>) -> usize {
+    use scylla_cql::deserialize::value::VectorIterator;
+    use scylla_cql::value::CqlValue;
+    let specs = rows.metadata().col_specs();
+    let dims = match specs {
+        [one] => match one.typ() {
+            ColumnType::Vector { dimensions, .. } => *dimensions as usize,
+            _ => return 0,
+        },
+        _ => return 0,
+    };
+    let r = guard(first_panic, || -> usize {
+        let Ok(it) = rows.rows_iter::<(VectorIterator<CqlValue>,)>() else { return 0 };
+        let mut over = 0usize;
+        for row in it.take(8) {
+            let Ok((v,)) = row else { continue };
+            // every k for small vectors; the interesting ones for big ones (the probe must not be quadratic in the dimension)
+            let ks: Vec<usize> = if dims <= 16 { (0..=dims + 1).collect() } else { vec![0, 1, 2, dims / 2, dims - 1, dims, dims + 1] };
+            for k in ks {
+                let mut c = v.clone();
+                let _ = c.nth(k);
+                let claimed = c.len();
+                let rest = c.take(70_000).count();
+                if rest > dims || claimed != rest {
+                    over += 1;
+                }
+            }
+        }
+        over
+    });
+    r.unwrap_or(0)
 }
 
 fn rows_stage(rows: &DeserializedMetadataAndRawRows, first_panic: &mut Option<String>) -> Value {
@@ -815,6 +879,7 @@ fn staged_pass(p: &Prepared8, first_panic: &mut Option<String>) -> Staged {
         ext: Value::from("skipped"),
         resp: Value::from("skipped"),
         rows: Value::from("none"),
+        drain: json!({"capped":1,"items":0,"announced":0,"ended":1,"vec_over":0}),
     };
 
     // 1. frame header + body
@@ -890,6 +955,7 @@ fn staged_pass(p: &Prepared8, first_panic: &mut Option<String>) -> Staged {
     // 4. rows as dynamic values
     if let Some(rows) = rows_of(&resp) {
         st.rows = rows_stage(rows, first_panic);
+        st.drain = drain_stage(rows, first_panic);
     }
     st
 }
@@ -935,6 +1001,7 @@ fn process_line(line: &str) -> Value {
     o.insert("ext".into(), st.ext);
     o.insert("resp".into(), st.resp);
     o.insert("rows".into(), st.rows);
+    o.insert("drain".into(), st.drain);
     o.insert(
         "typed".into(),
         Value::Array(
